@@ -110,6 +110,31 @@ theorem keep_is_monotone (s : St) (e : Ev) : (∀ q ∈ s.procs, q ∈ (step tru
 
 example : (run false ⟨[], [], []⟩ [.start "p1", .task "p1" "$", .start "p2", .task "p2" "$", .terminal "p1", .task "p1" "late"]).tasks = [⟨"p2:$", "p2"⟩] := by decide
 
+/-- the run-time monitor is the theorem's predicate: whenever `retentionCheck` accepts a store, the store has no orphan rows … -/
+theorem check_implies_no_orphans (keep : Bool) (finished : List String) (s : St) (h : retentionCheck keep finished s = none) : NoOrphans s := by
+  unfold retentionCheck at h
+  split at h
+  · cases h
+  · rename_i hnone
+    intro t ht
+    have := List.find?_eq_none.1 hnone t ht
+    simpa using this
+
+/-- … and, with the default configuration, nothing of a finished process -/
+theorem check_implies_nothing_left (finished : List String) (s : St) (h : retentionCheck false finished s = none) :
+    ∀ p ∈ finished, p ∉ s.procs ∧ ∀ t ∈ s.tasks, t.pid ≠ p := by
+  unfold retentionCheck at h
+  split at h
+  · cases h
+  · simp only [removeOnTerminal, Bool.not_false, ↓reduceIte] at h
+    split at h
+    · cases h
+    · rename_i hnone
+      intro p hp
+      have := List.find?_eq_none.1 hnone p hp
+      simp only [Bool.or_eq_true, List.contains_eq_mem, decide_eq_true_eq, List.any_eq_true, beq_iff_eq, not_or, not_exists, not_and] at this
+      exact ⟨this.1, fun t ht hc => this.2 t ht hc⟩
+
 /-- non-vacuity -/
 example : (removeProc ⟨["p1", "p2"], [⟨"p1:$", "p1"⟩, ⟨"p2:$", "p2"⟩, ⟨"p1:a", "p1"⟩], [("m1", "p1")]⟩ "p1").tasks = [⟨"p2:$", "p2"⟩] := by decide
 
